@@ -45,6 +45,9 @@ impl Diagnostic {
     /// Add a label of type 'primary'.
     pub fn primary(&mut self, span: impl HasSpan, message: String) -> &mut Self {
         let span = span.span();
+        if span.file_id.is_none() {
+            return self.note_for_builtin(message);
+        }
         self.imp.labels.push(CsLabel::primary(span.file_id, span).with_message(message));
         self
     }
@@ -52,7 +55,17 @@ impl Diagnostic {
     /// Add a label of type 'secondary'.
     pub fn secondary(&mut self, span: impl HasSpan, message: String) -> &mut Self {
         let span = span.span();
+        if span.file_id.is_none() {
+            return self.note_for_builtin(message);
+        }
         self.imp.labels.push(CsLabel::secondary(span.file_id, span).with_message(message));
+        self
+    }
+
+    /// A label on something that has no source location (e.g. a built-in definition) cannot be
+    /// rendered as a label; it becomes a note instead.
+    fn note_for_builtin(&mut self, message: String) -> &mut Self {
+        self.imp.notes.push(format!("(built-in) {}", message));
         self
     }
 
